@@ -581,3 +581,65 @@ def loop_programs():
                             "ctx": [("p", "Pv"), ("xs", ["I1", "I2", "I3"])], "nerr": 0}
                     out.append(("loops:%s%s/%s" % (reads, "-only" if child_only else "", body), mode, prog))
     return out
+
+
+# ---------------------------------------------------------------------------------------------------------------
+# outside the calculus: state of NESTED loops (forloop.parentloop) seen by fills and child templates.
+# Raw template text is carried in text nodes (printed verbatim on the implementation side); these programs never go
+# to the Coq reference - the expected output is computed here from the loop structure.
+# ---------------------------------------------------------------------------------------------------------------
+def parentloop_programs():
+    T = lambda s: ("text", s)                                   # noqa
+    RD = "[{{ forloop.parentloop.counter }}.{{ forloop.counter }}:{{ x }}{{ y }}]"
+    xs, ys = ["a", "b", "c"], ["x", "y"]
+    grid = "".join("[%d.%d:%s%s]" % (i, j, x, y) for i, x in enumerate(xs, 1) for j, y in enumerate(ys, 1))
+    out = []
+
+    def loops(body):
+        return [T("{% for x in xs %}{% for y in ys %}")] + body + [T("{% endfor %}{% endfor %}")]
+
+    def prog(mode, lib, page):
+        return {"mode": mode, "lib": lib, "page": page, "ctx": [("xs", xs), ("ys", ys), ("names", ["s1", "s2"])], "nerr": 0}
+    passl = [("xs", ("var", "xs")), ("ys", ("var", "ys")), ("names", ("var", "names"))]
+    ldata = [("xs", ("kw", "xs")), ("ys", ("kw", "ys")), ("names", ("kw", "names"))]
+    ch_slot = ("ch", {"tpl": [("slot", "s", True, False, [], [])], "data": []})
+    ch_read = ("ch", {"tpl": [T(RD)], "data": []})
+    ch2 = ("ch2", {"tpl": [("slot", "s1", False, False, [], []), T("/"), ("slot", "s2", False, False, [], [])], "data": []})
+    for mode in ("isolated", "django"):
+        for only in (False, True):
+            if mode == "django" and only:
+                continue    # fills of `only` tags in django mode: recorded class K_ONLY
+            fill = [("comp", "ch", [], only, [("fill", ("str", "s"), None, None, [T(RD)])])]
+            impl = [("comp", "ch", [], only, [T(RD)])]
+            for where in ("template", "page"):
+                for kind, body in (("fill", fill), ("implicit", impl)):
+                    if where == "template":
+                        lib = [("pa", {"tpl": loops(body), "data": ldata}), ch_slot]
+                        page = [("comp", "pa", passl, False, [])]
+                    else:
+                        lib, page = [ch_slot], loops(body)
+                    # django, explicit fill under two loops of a component template: the re-captured (shallow) copy of the
+                    # inner loop's state still points at the live outer loop = root cause of class K_RECAP
+                    cls = K_RECAP if (mode == "django" and where == "template" and kind == "fill") else None
+                    out.append(("parentloop:%s/%s%s" % (where, kind, "-only" if only else ""), prog(mode, lib, page), grid, cls))
+                # loop around the tag, loop between tag and fill (dynamic fill names)
+                btw = [T("{% for x in xs %}"),
+                       ("comp", "ch2", [], only, [("for", "n", ("var", "names"),
+                                                   [("fill", ("var", "n"), None, None, [T("[{{ forloop.parentloop.counter }}.{{ forloop.counter }}:{{ x }}{{ n }}]")])])]),
+                       T("{% endfor %}")]
+                exp = "".join("[%d.1:%ss1]/[%d.2:%ss2]" % (i, x, i, x) for i, x in enumerate(xs, 1))
+                if where == "template":
+                    lib = [("pa", {"tpl": btw, "data": ldata}), ch2]
+                    page = [("comp", "pa", passl, False, [])]
+                else:
+                    lib, page = [ch2], btw
+                # loop between tag and fill inside a loop of a component template: isolated - the fill's variable layer
+                # sits below the owner's loop layer (K_ISO_BTW); django - shallow copy of the loop state (K_RECAP)
+                cls = (K_ISO_BTW if mode == "isolated" else K_RECAP) if where == "template" else None
+                out.append(("parentloop:%s/between%s" % (where, "-only" if only else ""), prog(mode, lib, page), exp, cls))
+        # django mode: the child TEMPLATE sees the surrounding loops
+        if mode == "django":
+            lib = [("pa", {"tpl": loops([("comp", "ch", [], False, [])]), "data": ldata}), ch_read]
+            out.append(("parentloop:template/child-template", prog(mode, lib, [("comp", "pa", passl, False, [])]), grid, None))
+            out.append(("parentloop:page/child-template", prog(mode, [ch_read], loops([("comp", "ch", [], False, [])])), grid, None))
+    return out
